@@ -145,3 +145,59 @@ theorem partial_isometry_norm_le {m n : ℕ} (Om : Matrix (Fin m) (Fin n) ℝ) (
     ring
   rw [h1]; linarith
 end PartialIsometry
+
+-- ---------------------------------------------------------------- added in the third session
+section ThirdSession
+open Matrix
+/-- C10: the SVD form of regularised least squares on the retained directions. With X = U diag(s) Vᵀ, UᵀU = 1, VᵀV = 1 (k retained directions) and
+    D = diag(s/(s²+α)), the matrix W = V D Uᵀ Y satisfies the normal equations (XᵀX + α I) W = Xᵀ Y of Tikhonov-regularised least squares. -/
+theorem ridge_svd_normal_equations {n m k p : ℕ} (X : Matrix (Fin n) (Fin m) ℝ) (U : Matrix (Fin n) (Fin k) ℝ) (V : Matrix (Fin m) (Fin k) ℝ)
+    (s : Fin k → ℝ) (α : ℝ) (Y : Matrix (Fin n) (Fin p) ℝ)
+    (hX : X = U * diagonal s * Vᵀ) (hU : Uᵀ * U = 1) (hV : Vᵀ * V = 1) (hpos : ∀ i, s i ^ 2 + α ≠ 0) :
+    (Xᵀ * X + α • (1 : Matrix (Fin m) (Fin m) ℝ)) * (V * diagonal (fun i => s i / (s i ^ 2 + α)) * Uᵀ * Y) = Xᵀ * Y := by
+  have hXt : Xᵀ = V * diagonal s * Uᵀ := by
+    rw [hX]; simp [transpose_mul, diagonal_transpose, Matrix.mul_assoc]
+  have h1 : Xᵀ * X = V * diagonal (fun i => s i * s i) * Vᵀ := by
+    rw [hXt, hX]
+    calc V * diagonal s * Uᵀ * (U * diagonal s * Vᵀ) = V * diagonal s * (Uᵀ * U) * diagonal s * Vᵀ := by simp only [Matrix.mul_assoc]
+      _ = V * (diagonal s * diagonal s) * Vᵀ := by rw [hU]; simp [Matrix.mul_assoc]
+      _ = V * diagonal (fun i => s i * s i) * Vᵀ := by rw [diagonal_mul_diagonal]
+  set D := diagonal (fun i => s i / (s i ^ 2 + α)) with hD
+  have key : (Xᵀ * X + α • (1 : Matrix (Fin m) (Fin m) ℝ)) * (V * D) = V * diagonal s := by
+    rw [h1, Matrix.add_mul]
+    have e1 : V * diagonal (fun i => s i * s i) * Vᵀ * (V * D) = V * (diagonal (fun i => s i * s i) * D) := by
+      calc V * diagonal (fun i => s i * s i) * Vᵀ * (V * D) = V * diagonal (fun i => s i * s i) * (Vᵀ * V) * D := by simp only [Matrix.mul_assoc]
+        _ = V * (diagonal (fun i => s i * s i) * D) := by rw [hV]; simp [Matrix.mul_assoc]
+    have e2 : (α • (1 : Matrix (Fin m) (Fin m) ℝ)) * (V * D) = V * (α • D) := by
+      simp [Matrix.smul_mul, Matrix.mul_smul]
+    rw [e1, e2, ← Matrix.mul_add]
+    congr 1
+    rw [hD, diagonal_mul_diagonal, ← diagonal_smul, diagonal_add]
+    congr 1
+    funext i
+    have := hpos i
+    simp only [Pi.smul_apply, smul_eq_mul]
+    field_simp
+  calc (Xᵀ * X + α • (1 : Matrix (Fin m) (Fin m) ℝ)) * (V * D * Uᵀ * Y)
+      = ((Xᵀ * X + α • (1 : Matrix (Fin m) (Fin m) ℝ)) * (V * D)) * Uᵀ * Y := by simp only [Matrix.mul_assoc]
+    _ = V * diagonal s * Uᵀ * Y := by rw [key]
+    _ = Xᵀ * Y := by rw [hXt]
+
+/-- C10 (thin-SVD contract): for non-increasing singular values the directions above a threshold form a prefix, so `sum(s > t)` is a prefix length -/
+theorem above_threshold_is_prefix {k : ℕ} (s : Fin k → ℝ) (hs : Antitone s) (t : ℝ) (i j : Fin k) (hij : i ≤ j) (hj : s j > t) : s i > t :=
+  lt_of_lt_of_le hj (hs hij)
+
+/-- C17 (finite-sum functional SUMARR): adding `d` to one entry adds `d` to the sum -/
+theorem sum_update_add {n : ℕ} (f : Fin n → ℝ) (r : Fin n) (d : ℝ) :
+    ∑ t, (Function.update f r (f r + d)) t = (∑ t, f t) + d := by
+  rw [Finset.sum_update_of_mem (Finset.mem_univ r)]
+  have h := Finset.add_sum_erase Finset.univ f (Finset.mem_univ r)
+  have : (Finset.univ \ {r}) = Finset.univ.erase r := by ext x; simp
+  rw [this]; linarith
+
+/-- C17: the grid weights (sums of the weights of the descriptors assigned to each grid point) total the descriptor weights -/
+theorem fibre_sums_total {n g : ℕ} (L : Fin n → Fin g) (w : Fin n → ℝ) :
+    ∑ j : Fin g, ∑ t : Fin n, (if L t = j then w t else 0) = ∑ t, w t := by
+  rw [Finset.sum_comm]
+  simp
+end ThirdSession
